@@ -428,6 +428,24 @@ var goodURNs = []string{
 	"whatsapp:593979222222?channel=" + channelDefs[3].UUID,
 }
 
+// URNs whose channel query names a channel that is not (any more) in the assets: read with a nil channel pointer but a
+// raw URN that still carries the query, which SetChannel rewrites
+const goneChannel = "c0000000-0000-4000-8000-00000000ffff"
+
+var staleURNs = []string{
+	"tel:+593979333333?channel=" + goneChannel, "telegram:67890?channel=" + goneChannel, "tel:+12065551212?channel=" + goneChannel + "&id=123",
+	"whatsapp:593979333333?channel=" + goneChannel, "mailto:bar@example.com?channel=" + goneChannel,
+}
+
+func hasChannelQuery(us []string) bool {
+	for _, s := range us {
+		if strings.Contains(s, "channel=") {
+			return true
+		}
+	}
+	return false
+}
+
 // URNs a modifier may carry in addition: unnormalised and invalid ones
 var oddURNs = []string{
 	"tel: +593979111111 ", "tel:+593 979 111111", "tel:0979111111", "TEL:+593979111111", "telegram:abc", "tel:", "xyz:abc", "mailto:notanemail",
@@ -504,6 +522,22 @@ func genContact(r *hx.Rand, u *uniSpec) *contactSpec {
 	}
 	if r.Chance(1, 12) {
 		c.URNs = append(c.URNs, hx.Pick(r, []string{"mailto:Foo@Example.com", "tel:+593 979 111111", "telegram:12345#  bobby "}))
+	}
+	if r.Chance(1, 7) { // affinity to a channel the assets no longer have
+		s := hx.Pick(r, staleURNs)
+		dup := false
+		for _, x := range c.URNs {
+			if urns.URN(x).Identity() == urns.URN(s).Identity() {
+				dup = true
+			}
+		}
+		if !dup {
+			if r.Bool() {
+				c.URNs = append([]string{s}, c.URNs...)
+			} else {
+				c.URNs = append(c.URNs, s)
+			}
+		}
 	}
 	// stored membership: arbitrary subset (so possibly wrong for query groups, possibly static groups on a non-active contact)
 	mode := r.Intn(3)
@@ -621,6 +655,9 @@ func genModifier(r *hx.Rand, u *uniSpec, c *contactSpec) *modSpec {
 		}
 		return m
 	case 10:
+		if hasChannelQuery(c.URNs) && r.Bool() {
+			return &modSpec{Kind: "channel", Channel: -1} // clearing affinity where there is some to clear
+		}
 		return &modSpec{Kind: "channel", Channel: r.Range(-1, len(channelDefs)-1)}
 	default:
 		return &modSpec{Kind: "ticket", Topic: r.Range(-1, 1), Assignee: r.Range(-1, 1), Text: hx.Pick(r, []string{"", "help me"})}
